@@ -370,4 +370,24 @@ example : ((toModelBlock .regtest (fun _ => 1) ⟨hdrEx, [cbEx]⟩).txs.map (·.
 example : witnessVersion ([0x00, 0x15] ++ List.replicate 21 9) = some 0 ∧
     addressOf .mainnet ([0x00, 0x15] ++ List.replicate 21 9) = none := by decide
 
+/-- The heartbeat's decoding of a response blob: a serialised block followed by ANY bytes decodes to
+    that block (trailing bytes are ignored), and whatever decodes is a serialisation followed by the
+    ignored rest. -/
+theorem prefix_decode_roundtrip (net : Tree.Net) (diffOf : HeaderFields → Nat) (b : RawBlock) (rest : List Nat)
+    (h : b.WF) :
+    blockOfBytesPrefix net diffOf (encodeBlock b ++ rest) = some (toModelBlock net diffOf b) := by
+  simp [blockOfBytesPrefix, block_roundtrip b rest h]
+
+theorem prefix_decode_canonical (net : Tree.Net) (diffOf : HeaderFields → Nat) (bs : List Nat) (m : Btc.Block)
+    (hb : TxCodec.AllBytes bs) (h : blockOfBytesPrefix net diffOf bs = some m) :
+    ∃ b rest, b.WF ∧ bs = encodeBlock b ++ rest ∧ m = toModelBlock net diffOf b := by
+  unfold blockOfBytesPrefix at h
+  cases hd : decodeBlock bs with
+  | none => simp [hd] at h
+  | some p =>
+    obtain ⟨b, rest⟩ := p
+    simp [hd] at h
+    obtain ⟨h1, h2⟩ := block_canonical bs b rest hb hd
+    exact ⟨b, rest, h2, h1, h.symm⟩
+
 end Btc.Props.BlockCodec
